@@ -2,7 +2,7 @@
 import hashlib, json, os, re, shutil, subprocess, sys, tempfile, time
 
 VERIF = os.path.dirname(os.path.dirname(os.path.abspath(__file__)))
-REPO = '/repo'
+REPO = os.environ.get('VERIF_REPO', '/repo')    # overridden only by tools/par_seeded.sh (scratch worktrees)
 LEAN = os.path.join(VERIF, 'lean')
 HARNESS_DIR = os.path.join(VERIF, 'harness')
 HARNESS = os.path.join(HARNESS_DIR, 'target', 'debug', 'harness')
